@@ -213,6 +213,7 @@ func perts(b *baseCtx, th bool) []pert {
 			}
 		}
 	}
+	ps = append(ps, pert{Kind: "url-star"})
 	add("algorithm", []string{"md5", "sha-256", "absent"})
 	ui := 0
 	for i, u := range urls {
